@@ -405,15 +405,19 @@ class ConnectedRemotePeer(RemotePeer):
                         item.block_requested = True
                         self.send_message(GetDataMessage(DATA_BLOCK, item.hash), prev_header=msg_state.header)
 
-    def remove_from_inventory(self, hash: bytes) -> None:
+    def remove_from_inventory(self, hash: bytes) -> bool:
+        # returns whether the hash was listed in an inventory of this peer and we asked the peer for it
+        requested = False
         for i, msg_state in enumerate(self.inventory_messages):
             for j, item in enumerate(msg_state.message.items):
                 if item.hash == hash:
+                    requested = requested or item.block_requested
                     del msg_state.message.items[j]
                     break
             if len(msg_state.message.items) == 0:
                 del self.inventory_messages[i]
                 break
+        return requested
 
     def handle_get_data_message_received(
         self, header: MessageHeader, get_data_message: GetDataMessage
@@ -457,7 +461,10 @@ class ConnectedRemotePeer(RemotePeer):
         coinstate_prior = self.local_peer.chain_manager.coinstate
 
         block_hash = block.hash()
-        self.remove_from_inventory(block_hash)
+        requested = self.remove_from_inventory(block_hash)
+
+        # header.in_response_to is filled in by the sender: it only means "bulk download" for a block we asked this peer for
+        bulk_download = requested and header.in_response_to != 0
 
         if block_hash not in coinstate_prior.block_by_hash:
 
@@ -482,7 +489,7 @@ class ConnectedRemotePeer(RemotePeer):
             coinstate_changed = coinstate_prior.add_block_no_validation(block)
             self.local_peer.disk_interface.save_block(block)
 
-            if header.in_response_to == 0 or block.height % IBD_VALIDATION_SKIP == 0:
+            if not bulk_download or block.height % IBD_VALIDATION_SKIP == 0:
                 # Validation is very slow, and we don't have to validate every block in a blockchain, so
                 # during IBD, we only validate every Nth block where N := IBD_VALIDATION_SKIP.
                 # Because the BLOCKS are part of a CHAIN of hashes, every valid block[n] guarantees a valid
@@ -505,8 +512,8 @@ class ConnectedRemotePeer(RemotePeer):
             else:
                 self.local_peer.chain_manager.set_coinstate(coinstate_changed, validated=False)
 
-            if block == coinstate_changed.head() and header.in_response_to == 0:
-                # "header.in_response_to == 0" is being used as a bit of a proxy for "not in IBD" here, but it would be
+            if block == coinstate_changed.head() and not bulk_download:
+                # "not bulk_download" is being used as a bit of a proxy for "not in IBD" here, but it would be
                 # better to check for that state more explicitly. We don't want to broadcast blocks while in IBD,
                 # because in that state the fact that some block is our new head doesn't mean at all that we're talking
                 # about the real chain's new head, and only the latter is relevant to the rest of the world.
